@@ -7,6 +7,8 @@ R2  every memory access of a scanner function is rooted at a parameter, a local,
     external (stdin/stdout/stderr, C++ cin/cout/cerr, errno) or memory returned by an allocator / another scanner
     function.
 R3  no scanner function refers to a libc function that POSIX lists as not thread-safe.
+R5  C++: every member that yy_init_globals of the C scanners resets and that a member function reads is initialised on every
+    constructor path, so that a lexer built in recycled storage does not inherit another instance's state (see c13.r8).
 R4  with %option prefix="foo" every strong external definition carries the prefix (C) or belongs to fooFlexLexer
     (C++); scanners with different prefixes have disjoint strong external definitions.
 """
@@ -545,6 +547,19 @@ def run(ctx):
         tot['fns'] += a; tot['acc'] += b
         tot['ext'] += r3(rep, v, mod)
     n4 = r4(ctx, rep, vs, extra)
+    # R5: a C++ lexer object does not depend on what its storage held before (shared implementation with C13.R8)
+    import c13
+    cinit = set(); n5 = 0
+    for v in iso:
+        if v.backend == 'r':
+            cinit |= c13.c_init_set(variants.module(v), c13.Flow(variants.program(v), variants.module(v)))
+    rep.require(len(cinit) >= 12, 'yy_init_globals of the reentrant C scanners resets only %d objects' % len(cinit))
+    for v in iso:
+        if v.backend == 'cxx':
+            mod = variants.module(v); prog = variants.program(v)
+            n5 += c13.r8(rep, v, prog, mod, c13.Flow(prog, mod), cinit, rule='C12.R5')
+    rep.setcount('constructor_member_checks', n5)
+    rep.floor('C12.R5', 280, 'measured 316 (quick): 10-16 members x 2 constructors in each C++ variant')
     rep.require(ntab >= 2, 'fewer than 2 reentrant --tables-file variants analysed')
     rep.setcount('variants_analysed', len(iso) + len(extra))
     rep.setcount('global_definitions_examined', tot['glob'])
